@@ -15,17 +15,18 @@ RULE = (
     "name collisions; shards fix the first two scheduling decisions. Group 'imports2': 14 (quick 11) two-process create_db job sets, "
     "ALL interleavings; job kinds: path, from_string, a duplicate-ID import that must fail, GTF with both or only transcript inference "
     "off, CDS-only GTF, force=True over an existing file, file:// URL, verbose='debug', and an import writing '<the forced job's "
-    "output>.2' in the same directory; otherwise outputs are same-named files in separate directories. 'imports2torn': two imports of "
-    "the identical string with the first write into a shared-directory file split in two, within 2 (quick) / 3 (thorough) pre-emptions. "
-    "'imports3': 3 three-process sets within 1 / 2 pre-emptions. 'imports1': one solitary 13220-line import (12000 second-level "
-    "relations). 'hashseeds' (1 execution): one import merging duplicates (force_merge_fields source), run in fresh interpreters under "
-    "6 PYTHONHASHSEED values, must give one canonical database (attribute values as sets). Solitary reference runs are made in forked "
-    "children before the controller imports anything (one that fails is a finding); the controller then runs a solitary import in the "
-    "shared directory, which must leave nothing. Each output is compared canonically with a solitary run, every process must end as "
-    "expected, and the shared directory must end empty. 'readers': 2 and 3 concurrent readers of one finished database with points also "
-    "at connect, every statement, commit and row fetch, within 1 / 3 (2 readers) and 1 / 2 (3 readers) pre-emptions; every reader must "
-    "succeed and see the full content. Non-trivial = the schedule has more context switches than processes minus one (the solitary "
-    "import and the hash-seed run always count)."
+    "output>.2' in the same directory; otherwise outputs are same-named files in separate directories; one input's gene id holds a "
+    "blank. 'imports2torn': two imports of the identical string with the first write into a shared-directory file split in two, within "
+    "2 (quick) / 3 (thorough) pre-emptions. 'imports3': 3 three-process sets within 1 / 2 pre-emptions. 'imports1': one solitary "
+    "13220-line import (12000 second-level relations). 'hashseeds' (2 executions: a GFF3 import merging duplicates with "
+    "force_merge_fields source, some filed under generated keys; a GTF import keyed by exon_id merging exons shared by transcripts), "
+    "each run in fresh interpreters under 6 PYTHONHASHSEED values, must give one canonical database (attribute values as sets). "
+    "Solitary reference runs are made in forked children before the controller imports anything (one that fails is a finding); the "
+    "controller then runs a solitary import in the shared directory, which must leave nothing. Each output is compared canonically with "
+    "a solitary run, every process must end as expected, and the shared directory must end empty. 'readers': 2 and 3 concurrent readers "
+    "of one finished database with points also at connect, every statement, commit and row fetch, within 1 / 3 (2 readers) and 1 / 2 (3 "
+    "readers) pre-emptions; every reader must succeed and see the full content. Non-trivial = the schedule has more context switches "
+    "than processes minus one (imports1 and hashseeds always count)."
 )
 ASSUMPTIONS = [
     "for the pair importing the same text as a string, the first write into a file in the shared directory is split in two with a "
